@@ -163,5 +163,5 @@ func run(c Case, o *lib.Obs) error {
 }
 
 func TestC02(t *testing.T) {
-	lib.Check(t, spec, lib.Scale(12, 1000), gen, run)
+	lib.Check(t, spec, lib.Scale(12, 400), gen, run)
 }
